@@ -705,6 +705,10 @@ def deframer_and_loop_polarity(ctx):
     cfgh = CFG(h.node, m, h.module)
     ing = {i for c in calls_in(h.node) if call_attr(c) == 'ingest' for i in cfgh.node_of(c)}
     if not ing:
+        for c in calls_in(h.node):
+            if isinstance(c.func, ast.Attribute) and dotted(c.func.value) == 'self' and h.cls is not None and c.func.attr in h.cls.methods \
+                    and any(call_attr(x) == 'ingest' for x in calls_in(h.cls.methods[c.func.attr].node)):
+                raise AnchorMissing(f'handle() leaves receiving and ingesting to {c.func.attr}(), which is not followed')
         ctx.bad(f'{h.qualname}:received data is ingested', h.node, 'handle() never calls ingest(): no request line ever reaches the de-framer', h)
     loop = _inner_loop(h)
     nm = {i for c in calls_in(loop) if call_attr(c) == 'next_message' for i in cfgh.node_of(c)}
